@@ -222,7 +222,7 @@ func round(c *core.Ctx, seed int64, dur time.Duration, nAPI int) (problems []str
 				i := r.Intn(6)
 				mac := net.HardwareAddr(clientMAC(i))
 				ip := netip.AddrFrom4(*(*[4]byte)(clientIP(i)))
-				switch r.Intn(16) {
+				switch r.Intn(17) {
 				case 0:
 					s.FindIP(ip)
 				case 1:
@@ -259,6 +259,10 @@ func round(c *core.Ctx, seed int64, dur time.Duration, nAPI int) (problems []str
 				case 15:
 					s.FindIP(ip)
 					ah.IsHunting(ip)
+				case 16:
+					// the router table is read by API callers while the packet loop learns from router advertisements
+					rt := h6.FindRouter(netip.AddrFrom16([16]byte{0xfe, 0x80, 0, 0, 0, 0, 0, 0, 0, 0, 0, 0, 0, 0, 0, byte(0x11 + i%2)}))
+					_ = rt.ManagedFlag
 				}
 				atomic.AddInt64(&st.api, 1)
 				atomic.AddInt64(&progress, 1)
@@ -344,7 +348,7 @@ loop:
 }
 
 func Gen(c *core.Ctx) {
-	c.Res.Rule = "stress rounds: one packet goroutine (Parse→ARP/ICMPv6 handlers→Notify; ARP, NS, echo, UDP and router advertisements that wake the ICMPv6 hunt loops) + purge with virtual time + N API goroutines over 16 API calls + notification drainer, random yields/sleeps, under the Go race detector; per round: recovered panics, watchdog, C05 invariant and PrintTable at quiescence, StartHunt→Close→router advertisement, goroutine count after Close. evaluations = API calls + frames + purges; distinct = rounds × goroutine mixes (measured as distinct (seed, nAPI) pairs)"
+	c.Res.Rule = "stress rounds: one packet goroutine (Parse→ARP/ICMPv6 handlers→Notify; ARP, NS, echo, UDP and router advertisements that wake the ICMPv6 hunt loops) + purge with virtual time + N API goroutines over 17 API calls (incl. Handler6.FindRouter) + notification drainer, random yields/sleeps, under the Go race detector; per round: recovered panics, watchdog, C05 invariant and PrintTable at quiescence, StartHunt→Close→router advertisement, goroutine count after Close. evaluations = API calls + frames + purges; distinct = rounds × goroutine mixes (measured as distinct (seed, nAPI) pairs)"
 	rounds := c.Scale(2, 12)
 	per := time.Duration(c.Scale(2500, 8000)) * time.Millisecond
 	total := stats{}
